@@ -68,3 +68,7 @@ func scratchDone(dir string)
 // symClock(true) makes the clock symbolic: every time.Now() is an arbitrary instant not
 // earlier than the previous one, so the solver decides where deadlines fall.
 func symClock(on bool)
+
+// pickU64 fixes x to some value the current path allows, without exploring the other values.
+// Only for existential witnesses: the harness needs some value, not every value.
+func pickU64(x uint64) uint64
